@@ -3,11 +3,43 @@ import PyxModel.Interp.Decode
 
 /-! driver commands of property C04:
     `(interp <fuel> <ctx> <state> <BodyNode tree> <kwargs>)` → `(ok <return value> <state>)`,
-    `(error "why the program is outside the domain")` or `(timeout)` -/
+    `(error "why the program is outside the domain")` or `(timeout)`;
+    `(interp-seq <fuel> <ctx> <state> (<BodyNode tree> <kwargs>)…)`: the programs run one after the other, each from
+    the state the previous one left (a fresh frame per program, as `run_function` creates a fresh walker) →
+    `(ok (seq <return value>…) <final state>)`, or the first error / timeout -/
 namespace Pyx.Driver.C04
 open Pyx Pyx.Sexp Pyx.Interp
 
+/-- run the decoded programs in sequence -/
+def runSeq (C : Ctx) (fuel : Nat) : List (Block × List (String × Val)) → State → List Val →
+    Option (Except Err (List Val × State))
+  | [], st, acc => some (.ok (acc.reverse, st))
+  | (body, kw) :: rest, st, acc =>
+    match runFunction C fuel body kw st with
+    | none => none
+    | some (.error e) => some (.error e)
+    | some (.ok (v, st')) => runSeq C fuel rest st' (v :: acc)
+
+def decodeStep : Sexp → Option (Block × List (String × Val))
+  | list [prog, kwargs] => do
+    let b ← decodeBody prog
+    let kw ← decodeKwargs kwargs
+    pure (b, kw)
+  | _ => none
+
 def handle : List Sexp → Option Sexp
+  | sym "interp-seq" :: int fuel :: ctx :: state :: steps =>
+    match decodeCtx ctx with
+    | none => some (list [sym "bad", str "ctx"])
+    | some C =>
+      match decodeState C state, steps.mapM decodeStep with
+      | some st, some ps =>
+        match runSeq C fuel.toNat ps st [] with
+        | none => some (list [sym "timeout"])
+        | some (.error e) => some (list [sym "error", str e.msg])
+        | some (.ok (vs, st')) => some (list [sym "ok", list (sym "seq" :: vs.map encodeVal), encodeState C st'])
+      | none, _ => some (list [sym "bad", str "state"])
+      | _, none => some (list [sym "bad", str "program"])
   | [sym "interp", int fuel, ctx, state, prog, kwargs] =>
     match decodeCtx ctx with
     | none => some (list [sym "bad", str "ctx"])
